@@ -1504,12 +1504,21 @@ type c01Pos struct {
 }
 
 // c01InsertPoints: offsets just after a tag, inside the root element. The bytes come from
-// Go's encoder: < and > occur in tags only, the namespace declaration is the first attribute.
+// Go's encoder: outside CDATA sections < and > occur in tags only, the namespace declaration
+// is the first attribute.
 func c01InsertPoints(b []byte) (pts []c01Pos, rootL, rootN string) {
 	type el struct{ l, n string }
 	var stack []el
 	for i := 0; i < len(b); i++ {
 		if b[i] != '<' {
+			continue
+		}
+		if bytes.HasPrefix(b[i:], []byte("<![CDATA[")) { // ,cdata fields: raw < and > inside
+			k := bytes.Index(b[i:], []byte("]]>"))
+			if k < 0 {
+				break
+			}
+			i += k + 2
 			continue
 		}
 		j := bytes.IndexByte(b[i:], '>')
@@ -1583,6 +1592,47 @@ func c01NoiseEl(r *rand.Rand, depth int, rootL, rootN, parL, parN, stanzaName st
 	return "<" + name + ` xmlns="` + c01NoiseNS + `" id="evil" type="evil" node="evil">` + sb.String() + "</" + name + ">"
 }
 
+// wire documents for the extension types with hand-written decoders, in the encoder's style
+// (explicit end tags, namespace declaration first)
+var c01WireDocs = map[string][]string{
+	"stanza.PubSubEvent": {
+		`<event xmlns="http://jabber.org/protocol/pubsub#event"><items node="princely_musings"><item id="ae890ac5" publisher="p@x"><entry xmlns="http://www.w3.org/2005/Atom"><title>Soliloquy</title></entry></item><item id="i2"></item><retract node="r1"></retract></items></event>`,
+		`<event xmlns="http://jabber.org/protocol/pubsub#event"><collection node="c"><associate node="n1"></associate></collection></event>`,
+		`<event xmlns="http://jabber.org/protocol/pubsub#event"><collection node="c"><disassociate node="n2"></disassociate></collection></event>`,
+		`<event xmlns="http://jabber.org/protocol/pubsub#event"><configuration node="n"><x xmlns="jabber:x:data" type="result"><field var="FORM_TYPE" type="hidden"><value>v</value></field></x></configuration></event>`,
+		`<event xmlns="http://jabber.org/protocol/pubsub#event"><delete node="n"><redirect uri="xmpp:h?;node=x"></redirect></delete></event>`,
+		`<event xmlns="http://jabber.org/protocol/pubsub#event"><purge node="n"></purge></event>`,
+		`<event xmlns="http://jabber.org/protocol/pubsub#event"><subscription node="n" jid="j@x" subscription="subscribed" expiry="2006-02-28T23:59:59Z"></subscription></event>`,
+	},
+	"stanza.PubSubOwner": {
+		`<pubsub xmlns="http://jabber.org/protocol/pubsub#owner"><affiliations node="n"><affiliation jid="a@b" affiliation="owner"></affiliation><affiliation jid="c@d" affiliation="outcast"></affiliation></affiliations></pubsub>`,
+		`<pubsub xmlns="http://jabber.org/protocol/pubsub#owner"><configure node="n"><x xmlns="jabber:x:data" type="form"><field var="pubsub#title" type="text-single"><value>t</value></field></x></configure></pubsub>`,
+		`<pubsub xmlns="http://jabber.org/protocol/pubsub#owner"><default><x xmlns="jabber:x:data" type="form"></x></default></pubsub>`,
+		`<pubsub xmlns="http://jabber.org/protocol/pubsub#owner"><delete node="n"><redirect uri="xmpp:h?;node=x"></redirect></delete></pubsub>`,
+		`<pubsub xmlns="http://jabber.org/protocol/pubsub#owner"><purge node="n"></purge><set xmlns="http://jabber.org/protocol/rsm"><max>5</max></set></pubsub>`,
+		`<pubsub xmlns="http://jabber.org/protocol/pubsub#owner"><subscriptions node="n"><subscription jid="j@x" subscription="subscribed"></subscription></subscriptions></pubsub>`,
+	},
+	"stanza.Command": {
+		`<command xmlns="http://jabber.org/protocol/commands" node="list" sessionid="s1" status="executing"><actions execute="next"><next></next></actions><note type="info">hello</note><x xmlns="jabber:x:data" type="form"><title>T</title><field var="a" type="text-single"><value>v</value></field></x></command>`,
+		`<command xmlns="http://jabber.org/protocol/commands" node="n" action="execute" lang="en"><note type="error">bad</note><note type="warn">w</note></command>`,
+	},
+	"stanza.MucPresence": {
+		`<x xmlns="http://jabber.org/protocol/muc"><password>p</password><history maxstanzas="20" seconds="180" since="1970-01-01T00:00:00Z"></history></x>`,
+		`<x xmlns="http://jabber.org/protocol/muc"><history maxchars="65000"></history></x>`,
+	},
+	"stanza.Delegation": {
+		`<delegation xmlns="urn:xmpp:delegation:1"><delegated namespace="urn:x"></delegated></delegation>`,
+		`<delegation xmlns="urn:xmpp:delegation:1"><forwarded xmlns="urn:xmpp:forward:0"><iq xmlns="jabber:client" id="f1" type="get" from="a@b"><query xmlns="jabber:iq:version"><name>n</name></query></iq></forwarded></delegation>`,
+		`<delegation xmlns="urn:xmpp:delegation:1"><forwarded xmlns="urn:xmpp:forward:0"><message xmlns="jabber:client" id="f2" type="chat" to="c@d"><body>inner</body><thread>t</thread></message></forwarded></delegation>`,
+		`<delegation xmlns="urn:xmpp:delegation:1"><forwarded xmlns="urn:xmpp:forward:0"><presence xmlns="jabber:client" id="f3"><status>s</status><priority>5</priority></presence></forwarded></delegation>`,
+	},
+	"stanza.PubSubGeneric": {
+		`<pubsub xmlns="http://jabber.org/protocol/pubsub"><publish node="n"><item id="i"><entry xmlns="http://www.w3.org/2005/Atom"><title>t</title></entry></item></publish><publish-options><x xmlns="jabber:x:data" type="submit"></x></publish-options></pubsub>`,
+		`<pubsub xmlns="http://jabber.org/protocol/pubsub"><subscription node="n" jid="j@x" subid="s" subscription="subscribed"></subscription></pubsub>`,
+		`<pubsub xmlns="http://jabber.org/protocol/pubsub"><items node="n" max_items="2"><item id="a"></item><item id="b"></item></items></pubsub>`,
+	},
+}
+
 // c01NoiseRoundTrip: the extension (filled by reflection) is carried in a stanza; unknown
 // children are injected into the extension's bytes; the stanza must decode, its own fields
 // must be untouched and the extension's typed fields must be those of the clean decode.
@@ -1594,6 +1644,11 @@ func c01NoiseRoundTrip(goType string, seed int64, wrap string) (msg, sig string)
 	eb, err := xml.Marshal(p.Interface())
 	if err != nil || len(eb) == 0 {
 		return "", "" // does not marshal on its own: the reflect cases report that
+	}
+	// the hand-written decoders are also fed realistic wire documents (what Marshal writes
+	// for PubSubEvent, for one, is not what its decoder reads)
+	if tpls := c01WireDocs[goType]; len(tpls) > 0 && seed%2 == 1 {
+		eb = []byte(tpls[int(seed/2)%len(tpls)])
 	}
 	r := rand.New(rand.NewSource(seed*7919 + c01Hash(goType)%100000))
 	pts, rootL, rootN := c01InsertPoints(eb)
